@@ -21,3 +21,23 @@ open(ev + ".bad", "w").write("\n".join(lines))
 print("one corrupted context digest at range.end: rejected events = %d" % run(ev + ".bad", "corrupted")[0])
 open(ev + ".drop", "w").write("\n".join(l for l in open(ev).read().split("\n") if '"ev":"if.end"' not in l))
 print("if.end hook removed: rejected events = %d" % run(ev + ".drop", "dropped")[0])
+
+# ---- the same demonstration for the lexer/parser protocol (Trace_LexProc)
+sys.path.insert(0, os.path.join(os.path.dirname(os.path.abspath(__file__)), "props"))
+import c02, shutil
+def proto(lines, label):
+    d = os.path.join(wd, "lt-" + label)
+    os.makedirs(d)
+    open(os.path.join(d, "lex.1.ndjson"), "w").write("\n".join(json.dumps(x) for x in lines) + "\n")
+    rep = common.Report("SELFTEST", "quick", 1)
+    c02.validate_protocol(rep, wd, d)
+    return len(rep.violations)
+ok = {"p": [{"ev": "recv", "typ": 14}, {"ev": "recv", "typ": 5}, {"ev": "ok"}], "closed": True, "src": "x", "cfg": "A"}
+err = {"p": [{"ev": "recv", "typ": 8}, {"ev": "error"}, {"ev": "drainrecv"}, {"ev": "drainrecv"}, {"ev": "drained"}], "closed": True, "src": "{{", "cfg": "A"}
+print("protocol, two real shapes: rejected = %d" % proto([ok, err], "clean"))
+leak = dict(err, p=err["p"][:2], closed=False)
+print("protocol, parser returns after an error without draining (lexer never closes): rejected = %d" % proto([ok, leak], "nodrain"))
+early = dict(ok, p=[{"ev": "recv", "typ": 14}, {"ev": "ok"}])
+print("protocol, parse.ok before EOF was received: rejected = %d" % proto([early, ok], "early"))
+ign = dict(ok, p=[{"ev": "recv", "typ": 0}, {"ev": "ok"}])
+print("protocol, error item ignored: rejected = %d" % proto([ok, ign], "ignored"))
